@@ -2,6 +2,7 @@ use crate::{Disclosure, DisclosurePath, Error, HashAlgorithm};
 use base64::Engine;
 use rand::{distributions::Alphanumeric, Rng};
 use serde_json::Value;
+use std::collections::HashSet;
 
 #[allow(dead_code)]
 pub(crate) enum JWTPart {
@@ -72,6 +73,59 @@ pub(crate) fn restore_disclosures(
         }
     }
 
+    // every digest may be embedded only once; the placeholder of a restored array element is gone,
+    // so its digest is taken from the recorded path
+    let mut digests = HashSet::new();
+    for disclosure_path in disclosure_paths.iter() {
+        if disclosure_path.disclosure.key().is_none()
+            && !digests.insert(disclosure_path.disclosure.digest().clone())
+        {
+            return Err(duplicate_digest());
+        }
+    }
+    check_digests(claims, &mut digests)
+}
+
+fn duplicate_digest() -> Error {
+    Error::SDJWTRejected("digest is embedded more than once".to_string())
+}
+
+fn check_digests(claims: &Value, digests: &mut HashSet<String>) -> Result<(), Error> {
+    match claims {
+        Value::Object(map) => {
+            if let Some(sd) = map.get("_sd") {
+                let sd_array = sd
+                    .as_array()
+                    .ok_or_else(|| Error::SDJWTRejected("_sd element must be array".to_string()))?;
+                for digest in sd_array.iter().filter_map(Value::as_str) {
+                    if !digests.insert(digest.to_string()) {
+                        return Err(duplicate_digest());
+                    }
+                }
+            }
+            for value in map.values() {
+                check_digests(value, digests)?;
+            }
+        }
+        Value::Array(array) => {
+            for item in array {
+                if let Some(digest) = item.get("...") {
+                    if item.as_object().map_or(0, |object| object.len()) != 1 {
+                        return Err(Error::SDJWTRejected(
+                            ("... key must be only key in object").to_string(),
+                        ));
+                    }
+                    if let Some(digest) = digest.as_str() {
+                        if !digests.insert(digest.to_string()) {
+                            return Err(duplicate_digest());
+                        }
+                    }
+                }
+                check_digests(item, digests)?;
+            }
+        }
+        _ => {}
+    }
     Ok(())
 }
 
